@@ -28,15 +28,18 @@ class StopCheck(Exception):
 
 
 def run_rules(mod, chk):
+    chk.repo.on_func = chk.analysed      # every function a rule asks the repository for by name counts as analysed
     try:
         mod.check(chk)
     except StopCheck:
         pass
     else:
+        chk.repo.on_func = None
         from sa import generic
         generic.whole_collection_loops(chk)
         generic.index_truthiness(chk)
         generic.delay_names(chk)
+    chk.repo.on_func = None
     return chk
 
 
